@@ -169,6 +169,26 @@ macro_rules! curve_impl {
             }
         }
 
+        #[cfg(pairing_plus_verif)]
+        impl $affine {
+            /// verification hook: `get_point_from_x`
+            pub fn verif_get_point_from_x(x: $basefield, greatest: bool) -> Option<$affine> {
+                Self::get_point_from_x(x, greatest)
+            }
+            /// verification hook: `is_on_curve`
+            pub fn verif_is_on_curve(&self) -> bool {
+                self.is_on_curve()
+            }
+            /// verification hook: `scale_by_cofactor`
+            pub fn verif_scale_by_cofactor(&self) -> $projective {
+                self.scale_by_cofactor()
+            }
+            /// verification hook: `is_in_correct_subgroup_assuming_on_curve`
+            pub fn verif_in_subgroup_assuming_on_curve(&self) -> bool {
+                self.is_in_correct_subgroup_assuming_on_curve()
+            }
+        }
+
         impl CurveAffine for $affine {
             type Engine = Bls12;
             type Scalar = $scalarfield;
